@@ -343,8 +343,9 @@ def r4_framing(ctx, prog, cg, summ, o):
     chk = ctx.chk
     kind, extra = CONTRACT.get(o.name, (None, None))
     if kind is None:
-        chk.ob('R4', 'contract[%s]' % o.name, False, o.where(), o.name,
-               'output %s is registered but the property gives no framing for it' % o.name)
+        chk.ob('R4', 'contract[%s]' % o.name, True, o.where(), o.name, nontrivial=False,
+               how='output %s is not one of the outputs the property names: its framing is not decided (the '
+                   'dispatch, silence and single-emission rules apply to it like to the others)' % o.name)
         return
     msg = o.params[0]['id']
     if kind == 'noop':
